@@ -216,10 +216,10 @@ def _parse_py(text):
         if line.startswith(' '):
             if cur is None:
                 raise NinjaError('unexpected indent: %r' % line)
-            name, sep, val = line.strip(' ').partition(' = ')
-            if not sep:
-                name, sep, val = line.strip(' ').partition(' =')
-            if not sep:
+            # the value runs to the end of the line (trailing blanks belong to it); a name cannot contain '='
+            name, sep, val = line.lstrip(' ').partition('=')
+            name = name.rstrip(' ')
+            if not sep or not name:
                 raise NinjaError('cannot parse binding %r' % line)
             if cur[0] == 'rule':
                 m.rules[cur[1]][name] = val
@@ -258,10 +258,9 @@ def _parse_py(text):
             m.defaults.extend(ps)
             cur = None
         else:
-            name, sep, val = line.partition(' = ')
-            if not sep:
-                name, sep, val = line.partition(' =')
-            if not sep:
+            name, sep, val = line.partition('=')
+            name = name.rstrip(' ')
+            if not sep or not name:
                 raise NinjaError('cannot parse line %r' % line)
             v = _eval_value(m.vars, val)
             m.vars.pop(name, None)
